@@ -114,6 +114,19 @@ def enumerate_cases(tier):
                             ins = [{"t": "a", "spec": sa}, {"t": "a", "spec": sb}]
                             yield "union-order-x-history-grid", {"inputs": ins if first == 0 else ins[::-1], "join": join, "sort": sort, "axis": None}
 
+    # three or four inputs sorted in one direction, some of them with a single label (which has no direction), in every order of the inputs
+    import itertools
+    pools = {"i": [[9, 7, 5], [5], [3], [8, 2]], "s": [["f", "d", "c"], ["b"], ["e"], ["d", "a"]], "f": [[4.5, 2.5], [0.0], [3.5], [2.5]]}
+    for kind, pool in pools.items():
+        for direction in ("inc", "dec"):
+            ls = [l[::-1] if direction == "inc" else l for l in pool]
+            for n in (3, 4):
+                for perm in itertools.permutations(range(4), n):
+                    for join in ("outer", "inner"):
+                        for sort in (False, True):
+                            ins = [{"t": "a", "spec": {"dims": ["x"] if j % 2 else ["x", "y"], "labels": [ls[j]] if j % 2 else [ls[j], [1, 2]], "vk": "f", "base": 10 * j}} for j in perm]
+                            yield "single-label-inputs-grid", {"inputs": ins, "join": join, "sort": sort, "axis": None}
+
 
 # ----------------------------------------------------------------------------------------------
 
